@@ -7,6 +7,8 @@ import (
 	"os"
 	"os/exec"
 	"path/filepath"
+	"regexp"
+	"runtime"
 	"strings"
 	"sync"
 	"time"
@@ -68,12 +70,61 @@ func (vc *VC) Script(obls []*Obligation) string {
 	return b.String()
 }
 
+var symRe = regexp.MustCompile(`\|[^|]*\|`)
+
+// coneOfInfluence returns, in order, the body lines (before pos) that the given text depends on.
+func (vc *VC) coneOfInfluence(text string, pos int) []string {
+	if vc.defLine == nil || vc.defLineN != len(vc.body) {
+		if vc.defLine == nil {
+			vc.defLine = map[string]int{}
+		}
+		for i := vc.defLineN; i < len(vc.body); i++ {
+			l := vc.body[i]
+			// (define-fun |name| ... / (declare-const |name| ...
+			if j := strings.Index(l, " |"); j >= 0 {
+				if k := strings.Index(l[j+2:], "|"); k >= 0 {
+					vc.defLine[l[j+1:j+2+k+1]] = i
+				}
+			}
+		}
+		vc.defLineN = len(vc.body)
+	}
+	need := map[int]bool{}
+	var stack []string
+	stack = append(stack, symRe.FindAllString(text, -1)...)
+	seen := map[string]bool{}
+	for len(stack) > 0 {
+		s := stack[len(stack)-1]
+		stack = stack[:len(stack)-1]
+		if seen[s] {
+			continue
+		}
+		seen[s] = true
+		i, ok := vc.defLine[s]
+		if !ok || i >= pos || need[i] {
+			continue
+		}
+		need[i] = true
+		l := vc.body[i]
+		if strings.HasPrefix(l, "(define-fun") {
+			stack = append(stack, symRe.FindAllString(l, -1)...)
+		}
+	}
+	var out []string
+	for i := 0; i < pos && i < len(vc.body); i++ {
+		if need[i] {
+			out = append(out, vc.body[i])
+		}
+	}
+	return out
+}
+
 func (vc *VC) Standalone(o *Obligation, model bool) string {
 	var b strings.Builder
 	b.WriteString(vc.pre.Text())
 	b.WriteString(vc.specAxioms())
-	for i := 0; i < o.Pos && i < len(vc.body); i++ {
-		b.WriteString(vc.body[i])
+	for _, l := range vc.coneOfInfluence(obligationAssert(o), o.Pos) {
+		b.WriteString(l)
 		b.WriteString("\n")
 	}
 	fmt.Fprintf(&b, "; OBL %s %s %s\n%s\n(check-sat)\n", o.Func, o.Name, o.Detail, obligationAssert(o))
@@ -91,7 +142,23 @@ type runResult struct {
 	err    error
 }
 
+// solverSlots bounds the number of solver processes running at once (time limits are wall-clock,
+// so oversubscribing the cores turns easy obligations into timeouts)
+var solverSlots = make(chan struct{}, maxInt(2, runtime.NumCPU()-2))
+
+func maxInt(a, b int) int {
+	if a > b {
+		return a
+	}
+	return b
+}
+
 func runSolver(ctx context.Context, s solverSpec, file string, timeoutMs int, inc bool, hard time.Duration) runResult {
+	solverSlots <- struct{}{}
+	defer func() { <-solverSlots }()
+	if ctx.Err() != nil {
+		return runResult{solver: s.name}
+	}
 	argv := s.argv(file, timeoutMs, inc)
 	cctx, cancel := context.WithTimeout(ctx, hard)
 	defer cancel()
@@ -126,78 +193,75 @@ func runSolver(ctx context.Context, s solverSpec, file string, timeoutMs int, in
 		if !bad {
 			err = nil
 		}
-	} else if cctx.Err() == nil {
-		// non-zero exit without error text (z3 exits 1 after get-model on unsat)
+	} else {
+		// non-zero exit without error text (z3 exits 1 after get-model on unsat), or killed at the hard
+		// time limit: whatever answers were printed count, the rest is unknown
 		err = nil
 	}
 	return runResult{solver: s.name, lines: lines, raw: raw, dur: d, err: err}
 }
 
-// Discharge runs all obligations of vc. Returns engine error if the solver output is malformed.
+// Discharge runs all obligations of vc, each as its own query sliced to its cone of influence:
+// first z3-new alone with the quick time limit, then (if not discharged) the three solvers raced with
+// the slow limit. Every solver process runs under a hard wall-clock limit.
 func (vc *VC) Discharge(obls []*Obligation, workDir string, quickMs, slowMs int) error {
 	if len(obls) == 0 {
 		return nil
 	}
 	vc.quickMs = quickMs
+	vc.coneOfInfluence("", 0) // build the definition index before the parallel workers use it
 	base := filepath.Join(workDir, sanitize(vc.key))
-	file := base + ".smt2"
-	if err := os.WriteFile(file, []byte(vc.Script(obls)), 0o644); err != nil {
-		return err
-	}
-	hard := time.Duration(len(obls)*quickMs+30000) * time.Millisecond
-	r := runSolver(context.Background(), solvers[0], file, quickMs, true, hard)
-	if r.err != nil {
-		return fmt.Errorf("%s: %v\n(script %s)", vc.key, r.err, file)
-	}
-	if len(r.lines) != len(obls) {
-		// solver died midway: mark the rest unknown
-		for len(r.lines) < len(obls) {
-			r.lines = append(r.lines, "unknown")
-		}
-	}
-	per := r.dur.Milliseconds() / int64(len(obls))
-	for i, o := range obls {
-		o.Result = r.lines[i]
-		o.Solver = "z3-new(incremental)"
-		o.Ms = per
-	}
-	// second chance for everything not as expected: standalone, three solvers raced, in parallel
 	var wg sync.WaitGroup
 	var mu sync.Mutex
 	var firstErr error
-	slots := make(chan struct{}, 4)
-	budget := 12 // at most this many slow retries per function
+	workers := make(chan struct{}, 6)
 	for i, o := range obls {
-		if o.Cover || o.Result == "unsat" {
-			continue
-		}
-		if budget == 0 {
-			continue
-		}
-		budget--
 		i, o := i, o
 		wg.Add(1)
 		go func() {
 			defer wg.Done()
-			slots <- struct{}{}
-			defer func() { <-slots }()
+			workers <- struct{}{}
+			defer func() { <-workers }()
 			sf := fmt.Sprintf("%s.obl%d.smt2", base, i)
-			if err := os.WriteFile(sf, []byte(vc.Standalone(o, true)), 0o644); err != nil {
+			if err := os.WriteFile(sf, []byte(vc.Standalone(o, !o.Cover)), 0o644); err != nil {
 				mu.Lock()
 				firstErr = err
 				mu.Unlock()
 				return
 			}
-			res := raceSolvers(sf, slowMs)
-			mu.Lock()
-			defer mu.Unlock()
-			if res.err != nil {
-				firstErr = fmt.Errorf("%s obligation %s: %v (script %s)", vc.key, o.Name, res.err, sf)
+			ms := quickMs
+			if o.Cover {
+				ms = 500
+			}
+			r := runSolver(context.Background(), solvers[0], sf, ms, false, time.Duration(ms+2000)*time.Millisecond)
+			if r.err != nil {
+				mu.Lock()
+				firstErr = fmt.Errorf("%s obligation %s: %v (script %s)", vc.key, o.Name, r.err, sf)
+				mu.Unlock()
 				return
 			}
-			o.Result, o.Solver, o.Ms = res.result, res.solver, res.dur.Milliseconds()
-			if res.result != "unsat" {
-				o.Model = res.raw
+			res := "unknown"
+			if len(r.lines) > 0 {
+				res = r.lines[0]
+			}
+			o.Result, o.Solver, o.Ms = res, "z3-new", r.dur.Milliseconds()
+			if o.Cover || res == "unsat" {
+				os.Remove(sf)
+				return
+			}
+			if res == "sat" {
+				o.Model = r.raw
+			}
+			rr := raceSolvers(sf, slowMs)
+			if rr.err != nil {
+				mu.Lock()
+				firstErr = fmt.Errorf("%s obligation %s: %v (script %s)", vc.key, o.Name, rr.err, sf)
+				mu.Unlock()
+				return
+			}
+			o.Result, o.Solver, o.Ms = rr.result, rr.solver, o.Ms+rr.dur.Milliseconds()
+			if rr.result != "unsat" {
+				o.Model = rr.raw
 			} else {
 				os.Remove(sf)
 			}
@@ -263,6 +327,9 @@ func raceSolvers(file string, timeoutMs int) raceResult {
 	if unknownRaw == "" && lastErr != nil {
 		return raceResult{err: lastErr}
 	}
+	if lastErr != nil {
+		unknownRaw += "[solver error ignored] " + lastErr.Error() + "\n"
+	}
 	return raceResult{result: "unknown", solver: "all", raw: unknownRaw}
 }
 
@@ -278,4 +345,36 @@ func sanitize(s string) string {
 // specAxioms renders global axioms declared in spec files (evaluated in an empty environment).
 func (vc *VC) specAxioms() string {
 	return vc.axiomText
+}
+
+// feasible asks the solver whether the current path condition is satisfiable. Only a definite
+// "unsat" (within a short time limit) makes it return false; it is used to prune unreachable call
+// sites and impossible dispatch candidates while generating verification conditions.
+func (vc *VC) feasible() bool {
+	r := vc.r()
+	if vc.cur == "false" {
+		return false
+	}
+	if vc.cur == "true" {
+		return true
+	}
+	var b strings.Builder
+	b.WriteString(r.pre.Text())
+	for _, l := range r.coneOfInfluence(vc.cur, len(r.body)) {
+		b.WriteString(l)
+		b.WriteString("\n")
+	}
+	fmt.Fprintf(&b, "(assert %s)\n(check-sat)\n", vc.cur)
+	dir := r.workDir
+	if dir == "" {
+		dir = os.TempDir()
+	}
+	r.nfeas++
+	file := filepath.Join(dir, fmt.Sprintf("%s.feas%d.smt2", sanitize(r.key), r.nfeas))
+	if err := os.WriteFile(file, []byte(b.String()), 0o644); err != nil {
+		return true
+	}
+	defer os.Remove(file)
+	res := runSolver(context.Background(), solvers[0], file, 1200, false, 2500*time.Millisecond)
+	return !(res.err == nil && len(res.lines) > 0 && res.lines[0] == "unsat")
 }
